@@ -17,6 +17,7 @@ def run(tier, seed, replay=None):
     if not binary:
         return chk.finish(rule='harness build failed')
     scripts = gen_scripts(chk, tier, zoo, paths, policy='balloons')
+    scripts = maybe_replay(chk, replay, scripts, zoo, paths)
     traces = run_histories(chk, binary, [{k: v for k, v in s.items() if not k.startswith('_')} for s in scripts])
     nfind = bln_oracle_pass(chk, scripts, traces, ('C02',))
     stats, bad = bln_correspondence(chk, traces, scripts)
